@@ -9,7 +9,7 @@
    are the oracle of Spec/ClientCodecSpec.v. Value vectors are unbounded lists. *)
 From Coq Require Import NArith List Arith.
 From Rodbus Require Import Base.Outcome Base.ClientTypes Model.Format Model.Range Model.ClientRequest
-  Spec.ClientCodecSpec Proofs.ClientCodecProofs Proofs.PackProofs.
+  Spec.ClientCodecSpec Proofs.ClientCodecProofs Proofs.PackProofs Proofs.ClientBytesProofs.
 Import ListNotations.
 Local Open Scope N_scope.
 
@@ -46,6 +46,12 @@ Theorem C03_size : forall f tx uid c bs, call_wf c -> client_submit f tx uid c =
   (length bs <= match f with Tcp => 260 | Rtu => 256 end)%nat.
 Proof. exact submit_size. Qed.
 Print Assumptions C03_size.
+
+(* What is emitted is a string of bytes (every element below 256), for u16 tx ids and u8 unit ids. *)
+Theorem C03_bytes : forall f tx uid c bs, call_wf c -> tx < 65536 -> uid < 256 ->
+  client_submit f tx uid c = Ok bs -> Forall is_u8 bs.
+Proof. exact submit_bytes. Qed.
+Print Assumptions C03_bytes.
 
 (* Construction and encoding never panic. *)
 Theorem C03_total : forall f tx uid c, call_wf c -> client_submit f tx uid c <> Panic.
